@@ -3,6 +3,7 @@ package props
 import (
 	"encoding/hex"
 	"fmt"
+	assetstypes "github.com/ExocoreNetwork/exocore/x/assets/types"
 	"math/big"
 
 	"exoverif/sim"
@@ -110,6 +111,34 @@ func (m *Machine) avsArgs(x *AvsAct) sim.AVSArgs {
 		a.Owners = append(a.Owners, m.Ident(o).Bech32())
 	}
 	for _, as := range x.Assets {
+		if as >= 100 {
+			// the (as-100)-th token registered during the history
+			k := as - 100
+			for i, b := range m.Log {
+				if b.Kind != "regToken" || i >= len(m.Outs) || !m.Outs[i].OK {
+					continue
+				}
+				if k > 0 {
+					k--
+					continue
+				}
+				tok := make([]byte, 32)
+				copy(tok, []byte{0xaa, byte(b.N), byte(b.N >> 8), 0x01})
+				if b.Neg {
+					for j := range tok {
+						tok[j] = 0xee
+					}
+				}
+				n := 20
+				if info, err := m.C.App.AssetsKeeper.GetClientChainInfoByIndex(m.C.Ctx(), b.Lz); err == nil && info != nil && info.AddressLength >= 20 && info.AddressLength <= 32 {
+					n = int(info.AddressLength)
+				}
+				_, id := assetstypes.GetStakerIDAndAssetID(b.Lz, nil, tok[:n])
+				a.AssetIDs = append(a.AssetIDs, id)
+				break
+			}
+			continue
+		}
 		if as < 0 || as >= len(m.W.AssetIDs) {
 			a.AssetIDs = append(a.AssetIDs, "0x1111111111111111111111111111111111111111_0x65")
 		} else {
